@@ -89,6 +89,12 @@ P_DaysTo == [][ \A b \in 0..6 : H!HDaysTo(b) => (d' \in {2 * k : k \in 0..6} /\ 
 P_Consumed == [][ (Take /\ sout'[1] = "none" /\ ser.k > 0)
                     => (e.v = ser.start.v + (ser.k - 1) * ser.step /\ e.ts = ser.start.ts
                         /\ ser.k = H!CountOf(ser)) ]_vars
+(* control: the exhaustion rule as found in the code (the saturating product k * step compared with the span)   *)
+(* never ends an inclusive series whose span is the largest duration - no k makes the product exceed it - while *)
+(* the rule of the specification (the exact product) ends every series; TLC refutes the former here, which is   *)
+(* how finding F36 showed up (as a state space that never closed)                                                *)
+ASSUME \A step \in 1..14 : \A kk \in 0..60 : ~(H!MaxV < H!DMulI(step, kk))
+ASSUME \A step \in 1..14 : \E kk \in 0..15 : H!MaxV < step * kk
 (* liveness: a series that was started is exhausted *)
 P_Exhausts == Alive ~> (sout = <<"none">>)
 =============================================================================
